@@ -11,7 +11,13 @@ def main(argv):
     pid = argv[0].upper()
     modname = f"gbmc.props.{pid.lower()}"
     if argv[1] == "--replay":
-        return common.run_replay(argv[2])
+        try:
+            return common.run_replay(argv[2])
+        except BaseException as e:  # noqa
+            import traceback
+
+            traceback.print_exc()
+            return 2
     tier = argv[1]
     if tier not in ("quick", "thorough"):
         print("tier must be quick or thorough")
@@ -21,6 +27,12 @@ def main(argv):
         return common.run_check(pid, modname, tier, seed)
     except common.HarnessError as e:
         print(f"HARNESS-ERROR {e}", file=sys.stderr)
+        return 2
+    except BaseException as e:  # an exception of the harness must never look like a violation (exit 1)
+        import traceback
+
+        traceback.print_exc()
+        print(f"HARNESS-ERROR {type(e).__name__}: {e}", file=sys.stderr)
         return 2
 
 
